@@ -330,6 +330,18 @@ func runC18(e *Env) {
 		}
 		if format == "query" {
 			req.URL.RawQuery = valuesOfA(a).Encode()
+			if chance(r, 1, 3) {
+				// an earlier middleware looked at the request form (that parses and caches it in r.Form) and
+				// worked on that cache - removed a key, added a derived one: the binding source of a body-less
+				// request is the query string of the request, not the application's scratch copy
+				_ = req.ParseForm()
+				if req.Form != nil {
+					req.Form.Del("name")
+					req.Form.Del("tags")
+					req.Form.Set("age", "424242")
+				}
+				t.Count("roundtrip.query_after_the_form_cache_was_edited", 1)
+			}
 		} else if chance(r, 1, 2) && (via == "Auto" || via == "Context.Bind") {
 			// automatic binding takes body formats solely from the body: an unrelated query key must not matter
 			// (the explicit Form binder documents that it reads the merged request form, so it is left alone)
@@ -449,6 +461,10 @@ func runC18(e *Env) {
 			body = []byte(pick(r, []string{`{"age":"x"}`, `{"age":1e99}`, `{"tags":5}`, `[]`, `null`, `<bindA><age>x</age></bindA>`, `<a>`, `age=x`, `age=1&age=2&nums=a`, `%zz=1`, `name=%`, `a=1;b=2`, `{"name":`, `--x`, ``, `<?xml version="1.0"?><bindA><nums>z</nums></bindA>`,
 				// bracketed / dotted keys of the form decoder
 				`tags[-1]=x`, `tags[0]=a&tags[2]=c`, `tags[99999999]=x`, `nums[a]=1`, `tags[0][1]=x`, `name[x]=1`, `tags[=x`, `[0]=x`, `tags[]=x`, `tags]=x`, `nums[-2147483649]=1`, `tags.0=x`, `name.x=1`, `ok[0]=true`, `age[0]=1`, `tags[1`, `tags[1]x=y`}))
+		}
+		if chance(r, 1, 20) {
+			body = nil // Content-Length: 0
+			t.Count("malformed.empty_body", 1)
 		}
 		if ct.Kind == "multipart" && ctype == "multipart/form-data" {
 			ctype = pick(r, []string{"multipart/form-data; boundary=xyz", "multipart/form-data", "multipart/form-data; boundary=", "multipart/form-data; boundary", "multipart/form-data; boundary=xyz;;"})
